@@ -7,7 +7,8 @@ Open Scope Z_scope.
 
 Inductive tcase :=
 | TOR (p g r out : Z)                 (* TimeOfRound(p s, g, r) = out *)
-| NR (now p g o1 o2 cur : Z).         (* NextRound(now,p,g) = (o1,o2); CurrentRound = cur *)
+| NR (now p g o1 o2 cur : Z)          (* NextRound(now,p,g) = (o1,o2); CurrentRound = cur *)
+| TK (p g t r : Z).                   (* the beacon ticker announced round r at time t *)
 
 Definition ok (c : tcase) : bool :=
   match c with
@@ -17,6 +18,7 @@ Definition ok (c : tcase) : bool :=
          C16_float_division proves it equal to the integer model on the property's domain *)
       let '(n, t) := next_round_f now p g in
       (n =? o1) && (t =? o2) && (current_round_f now p g =? cur)
+  | TK p g t r => current_round_f t p g =? r
   end.
 
 Definition mismatches (cs : list tcase) : list Z := mism_from ok 0 cs.
